@@ -17,5 +17,6 @@ def run(ctx):
     #    cancellation moment; JitterTicker for (d, jitter) pairs incl. jitter = 0 with Reset / Stop at every
     #    phase, channel watched for 10*d after Stop; judged by Trace_XTime
     bubble_tv(ctx, "TestXTime", "xtime", "Trace_XTime", "tv.cfg", "xtime", {"n": ctx.pick(80, 800)}, silent=False)
+    bubble_tv(ctx, "TestXTime", "xtime", "Trace_XTime", "tv.cfg", "xtime perturbed", {"n": ctx.pick(80, 800)}, silent=False, perturb=True)
     ctx.assumptions += ["a deadline that has already passed counts as 'closer than d' (DeadlineTooSoonError or the context's error are both accepted)",
                         "bubbles use Go >= 1.23 timer semantics"]
